@@ -148,7 +148,7 @@ def c10_grid(pools, verif_seed, tier, known):
     out = {"violations": [], "known": {}, "evaluations": 0, "distinct_nontrivial": 0, "samples": [], "harness_errors": 0, "x_grid": {"combinations": {}, "space": "5 solver classes x 4 shipped problems"}}
     for cls, kind, s, f in futs:
         try:
-            r = f.result(timeout=900)
+            r = pools.result_or_retry(f, 1, lambda cls=cls, kind=kind, s=s: pools.submit_custom(1, "mdpsim.cases.run_case_forced", "C10", s, {"cls": cls, "kind": kind}), timeout=900)
         except BaseException as e:  # noqa: BLE001
             r = {"verdict": "harness_error", "error": f"worker failed: {e}"}
         key = f"{cls}/{kind}"
@@ -256,7 +256,7 @@ def determinism_slice(pools, prop, results, k):
     bad = []
     for r, f in futs:
         try:
-            r2 = f.result(timeout=400)
+            r2 = pools.result_or_retry(f, r["devices"], lambda r=r: pools.submit_case(r["devices"], prop, r["seed"], r["plan"]), timeout=400)
         except BaseException as e:  # noqa: BLE001
             bad.append({"seed": r["seed"], "error": str(e)})
             continue
